@@ -743,7 +743,10 @@ pub fn gen(prop: &str, seed: u64, index: u64, _tier: Tier) -> Case {
                     variant = "crash-needed-build".into();
                 }
             }
-            let mut cfg = RunCfg::simple(ModeS::Build, "", inputs.clone(), final_k);
+            // the final build is a --needed build now and then (compared with the same --needed
+            // build from a pristine tree): it leaves leftovers alone until it has compared them
+            let final_mode = if rng.chance(1, 4) { ModeS::Needed } else { ModeS::Build };
+            let mut cfg = RunCfg::simple(final_mode, "", inputs.clone(), final_k);
             cfg.recursive = recursive;
             cfg.trailing_newline = tn;
             ops.push(Op::Run {
